@@ -442,6 +442,30 @@ func famJSON(dir string, seed int64, tier string) {
 			rep.violate("C20", "malformed-json-accepted", fmt.Sprintf("malformed JSON decodes to a clean end of stream (%d tokens: %s)", len(ts), descTokens(ts)), desc)
 		}
 	}
+	// rejected documents leave a pre-populated slice target as the standard decoder leaves it: untouched
+	for _, doc := range []string{"[1, 2", "[1, 2 3]", "[1, 2, tru]", "[1,\"x\"]"} {
+		a, b := []int{7}, []int{7}
+		e := guard(func() error { return sb.Copy(sb.DecodeJson(strings.NewReader(doc), nil), sb.Unmarshal(&a)) })
+		je := json.Unmarshal([]byte(doc), &b)
+		rep.Evaluations++
+		if e == nil || je == nil {
+			continue
+		}
+		if !reflect.DeepEqual(a, []int{7}) {
+			rep.violate("C20", "differs-from-encoding-json", fmt.Sprintf("after the rejected document the []int{7} target holds %v with sb, %v with encoding/json: a slice is replaced only when its value is complete", a, b), "broken json="+doc)
+		}
+	}
+	type hs struct {
+		Name string
+		Xs   []int
+	}
+	for _, doc := range []string{`{"Name":"n","Xs":[1, 2`, `{"Name":"n","Xs":[1,"x"]}`} {
+		a := hs{Xs: []int{7}}
+		e := guard(func() error { return sb.Copy(sb.DecodeJson(strings.NewReader(doc), nil), sb.Unmarshal(&a)) })
+		if e != nil && !reflect.DeepEqual(a.Xs, []int{7}) {
+			rep.violate("C20", "differs-from-encoding-json", fmt.Sprintf("after the rejected document the field Xs holds %v: a slice is replaced only when its value is complete", a.Xs), "broken json="+doc)
+		}
+	}
 	w.flush()
 	wJ.flush()
 	jsonEmbedded(rep)
